@@ -54,7 +54,7 @@ func VerifRouteFromCache() {
 		_, replaced := c.regions.put(r)
 		verifAssert(replaced, "a region that overlaps nothing is cached")
 	}
-	table := verifChoose(verifParam("T"))
+	table := vTableAt(verifChoose(verifParam("T")))
 	key := verifBytes(verifParam("KEYL"))
 
 	got := c.getRegionFromCache([]byte(vTables[table].fq), key)
@@ -73,6 +73,13 @@ func VerifRouteFromCache() {
 	}
 	verifObserveBool("hit", got != nil)
 	verifAssert(got == want, "the cache returns exactly the region whose range contains the key, or nothing")
+}
+
+// VerifRouteNamespaceTwin: VerifRouteFromCache over the tables "n:t" (namespace n) and "n_t"
+// (default namespace): names of equal length that differ only at the namespace separator.
+func VerifRouteNamespaceTwin() {
+	vTableSel = []int{2, 3}
+	VerifRouteFromCache()
 }
 
 // VerifRouteConcurrent: two callers look up rows of one table at the same time (the cache is
